@@ -300,17 +300,19 @@ theorem save_pure (c : Codec) (k : Kind) (fs : FS) (t : Target) (ft : FType) (ov
         intro e; subst e; exact hk hkey
       exact get?_set_ne d versionKey key versionVal hne
 
-/-- an existing HDF5 path is not replaced without `overwrite` — route 1, the path is a `str`:
-    the guard of `write_dict_hdf5` (generated leaf `guard`) refuses the save and the file system
-    is exactly as before, whatever the file holds -/
+/-- an existing HDF5 path is not replaced without `overwrite`, **however the path is handed over**
+    (`str`, `pathlib.Path`, `os.PathLike`, `bytes`) and **whatever the file holds** (an object of the
+    same or of another kind, a pickle, …): the guard of `write_dict_hdf5` (generated leaf `guard`)
+    refuses the save before the file is opened and the file system is exactly as before -/
 theorem no_overwrite_guard (c : Codec) (k : Kind) (fs : FS) (t : Target) (o : Val) (old : Content)
-    (hp : t.isPath = true) (hs : t.asStr = true) (hex : FS.lookup fs t = some old) :
+    (hp : t.isPath = true) (hex : FS.lookup fs t = some old) :
     (save c k fs t .hdf5 false o).1 = fs ∧ (save c k fs t .hdf5 false o).2.1 ≠ none ∧
       (∀ d, toDict k o = .ok d → (save c k fs t .hdf5 false o).2.1 = some .fileExists) := by
+  have hg : (t.isStr || t.isOtherPath) = true := by rw [isPath_split, hp]
   unfold save
   cases hd : toDict k o with
   | error e => simp
-  | ok d => simp [writeDict, writeDictWith, hex, hp, hs, Target.isStr]
+  | ok d => simp [writeDict, writeDictWith, hex, hg]
 
 /-- with `overwrite=True` the file afterwards holds exactly the new object — its content does
     not depend on what was there — and no other file is touched -/
@@ -425,13 +427,12 @@ theorem dict_to_list_spec :
 
 /-! ### a second save into an open handle that already holds something, without `overwrite` -/
 
-/-- HDF5 (any target that is no `str`: an open handle, or a path handed over as `pathlib.Path` /
-    `os.PathLike` / `bytes`, which the guard lets pass):
-    `File(handle, 'a')` re-opens the file and `_write_to_group` meets a member of the same
+/-- HDF5 into an open handle (named file object or `BytesIO`; paths of every kind are refused up
+    front by the guard, `no_overwrite_guard`): `File(handle, 'a')` re-opens the file and `_write_to_group` meets a member of the same
     name (always the case when the file holds an object of the same kind: the first key of
     every kind's dictionary is a dataset / group): h5py refuses, the file is exactly what it
     was, every load returns what it returned before -/
-theorem second_save_refused (k : Kind) (fs : FS) (t : Target) (ht : t.isStr = false) (g : H5)
+theorem second_save_refused (k : Kind) (fs : FS) (t : Target) (ht : t.isPath = false) (g : H5)
     (hg : FS.lookup fs t = some (.h5 g)) (o : Val) (k0 : String) (v0 r : Val)
     (hd : toDict k o = .ok (.dcons k0 v0 r)) (it : H5) (hi : encodeItem .utf8 v0 = .ok it)
     (hna : it.isAttr = false) (hl : g.hasLink k0 = true) :
@@ -440,13 +441,14 @@ theorem second_save_refused (k : Kind) (fs : FS) (t : Target) (ht : t.isStr = fa
     ∀ k' ft, load k' (save .utf8 k fs t .hdf5 false o).1 t ft = load k' fs t ft := by
   have hw : writeDict .utf8 fs t .hdf5 false (.dcons k0 v0 r) =
       (FS.put fs t (.h5 g), some .nameExists) := by
-    simp [writeDict, writeDictWith, hg, ht, writeInto_collision (encodeItem .utf8) g k0 v0 r it hi hna hl]
+    simp [writeDict, writeDictWith, hg, ht, Target.isStr, Target.isOtherPath,
+      writeInto_collision (encodeItem .utf8) g k0 v0 r it hi hna hl]
   refine ⟨by simp [save, hd, hw], by simp [save, hd, hw, lookup_put_self], fun k' ft => ?_⟩
   simp [save, hd, hw, load, readDict, lookup_put_self, hg]
 
 /-- … in particular two saves of objects of the same kind into a fresh handle: the second is
     refused and the handle still holds the first -/
-theorem save_twice_keeps_first (k : Kind) (fs : FS) (t : Target) (ht : t.isStr = false)
+theorem save_twice_keeps_first (k : Kind) (fs : FS) (t : Target) (ht : t.isPath = false)
     (hf : FS.lookup fs t = none) (o1 o2 : Val) (k0 : String) (v1 r1 v2 r2 : Val)
     (hd1 : toDict k o1 = .ok (.dcons k0 v1 r1)) (hd2 : toDict k o2 = .ok (.dcons k0 v2 r2))
     (hst : storable .utf8 (.dcons k0 v1 r1) = true) (it1 it2 : H5)
@@ -467,66 +469,48 @@ theorem save_twice_keeps_first (k : Kind) (fs : FS) (t : Target) (ht : t.isStr =
 
 /-! ### an existing HDF5 *path* handed over as `pathlib.Path` / `os.PathLike` / `bytes` -/
 
-/-- route 2 of the guard: the path is not a `str`, so `isinstance(fhandle, str)` lets it pass and
-    `File(path, 'a')` opens the existing file.  Contract of h5py's append mode: creating a member
-    whose name is taken is refused and nothing is written (`writeInto_collision`).  The first key
-    of the new dictionary is such a member (always so for an object of the kind the file holds),
-    hence: the save fails, the file holds exactly what it held, every other file is untouched and
-    every load of every kind from every target returns what it returned before. -/
+/-- the guard covers every path-like target (`isinstance(fhandle, (str, bytes, os.PathLike))`): a
+    path that is no `str` and exists is refused up front with `fileExists`, whatever it holds — an
+    object of any kind, pickles, a half-written file; every lookup and every load of every kind
+    from every target returns what it returned before.  (Before /repo "hdf5-guard-pathlike" such a
+    path was opened in append mode and a file of another kind was merged into.) -/
 theorem no_overwrite_guard_pathlike (k : Kind) (fs : FS) (t : Target) (hp : t.isPath = true)
-    (hs : t.asStr = false) (g : H5) (hg : FS.lookup fs t = some (.h5 g)) (o : Val) (k0 : String)
-    (v0 r : Val) (hd : toDict k o = .ok (.dcons k0 v0 r)) (it : H5)
-    (hi : encodeItem .utf8 v0 = .ok it) (hna : it.isAttr = false) (hl : g.hasLink k0 = true) :
-    (save .utf8 k fs t .hdf5 false o).2.1 = some .nameExists ∧
-    (∀ t', FS.lookup (save .utf8 k fs t .hdf5 false o).1 t' = FS.lookup fs t') ∧
+    (hs : t.asStr = false) (old : Content) (hex : FS.lookup fs t = some old) (o d : Val)
+    (hd : toDict k o = .ok d) :
+    (save .utf8 k fs t .hdf5 false o).2.1 = some .fileExists ∧
+    (save .utf8 k fs t .hdf5 false o).1 = fs ∧
     ∀ k' t' ft, load k' (save .utf8 k fs t .hdf5 false o).1 t' ft = load k' fs t' ft := by
-  have ht : t.isStr = false := by simp [Target.isStr, hs]
-  have hw : writeDict .utf8 fs t .hdf5 false (.dcons k0 v0 r) =
-      (FS.put fs t (.h5 g), some .nameExists) := by
-    simp [writeDict, writeDictWith, hg, ht, writeInto_collision (encodeItem .utf8) g k0 v0 r it hi hna hl]
-  have hfs : (save .utf8 k fs t .hdf5 false o).1 = FS.put fs t (.h5 g) := by simp [save, hd, hw]
-  have hlk : ∀ t', FS.lookup (FS.put fs t (.h5 g)) t' = FS.lookup fs t' :=
-    fun t' => lookup_put_same fs t t' _ hg
-  refine ⟨by simp [save, hd, hw], fun t' => by rw [hfs]; exact hlk t', fun k' t' ft => ?_⟩
-  rw [hfs]
-  simp only [load, readDict, hlk t']
+  obtain ⟨a, _, c⟩ := no_overwrite_guard .utf8 k fs t o old hp hex
+  exact ⟨c d hd, a, fun k' t' ft => by rw [a]⟩
 
-/-- **both routes.**  A file saved to a fresh path (handed over either way), then a second object
-    of the same kind saved to the *same file* without `overwrite` — the path again handed over
-    either way, `str` then `Path`, `Path` then `str`, …: the second save fails (`fileExists` from
-    the guard for a `str`, `nameExists` from h5py otherwise) and every load returns what it
-    returned before.  An existing file is never replaced unless overwrite is requested. -/
-theorem existing_path_never_replaced (k : Kind) (fs : FS) (t t2 : Target) (hp : t.isPath = true)
+/-- **An existing file is never replaced unless overwrite is requested.**  An object of kind `k1`
+    saved to a fresh path (handed over either way), then an object of **any** kind `k2` saved to
+    the *same file* without `overwrite` — the path again handed over either way, `str` then
+    `Path`, `Path` then `str`, …: the first save succeeds, the second is refused with `fileExists`,
+    the file system is exactly what it was and every load returns what it returned before. -/
+theorem existing_path_never_replaced (k1 k2 : Kind) (fs : FS) (t t2 : Target) (hp : t.isPath = true)
     (hid : t2.id = t.id) (hp2 : t2.isPath = t.isPath)
-    (hf : FS.lookup fs t = none) (o1 o2 : Val) (k0 : String) (v1 r1 v2 r2 : Val)
-    (hd1 : toDict k o1 = .ok (.dcons k0 v1 r1)) (hd2 : toDict k o2 = .ok (.dcons k0 v2 r2))
-    (hst : storable .utf8 (.dcons k0 v1 r1) = true) (it1 it2 : H5)
-    (hi1 : encodeItem .utf8 v1 = .ok it1) (hna1 : it1.isAttr = false)
-    (hi2 : encodeItem .utf8 v2 = .ok it2) (hna2 : it2.isAttr = false) :
-    (save .utf8 k fs t .hdf5 false o1).2.1 = none ∧
-    (save .utf8 k (save .utf8 k fs t .hdf5 false o1).1 t2 .hdf5 false o2).2.1 =
-      some (if t2.asStr then .fileExists else .nameExists) ∧
-    ∀ k' t' ft, load k' (save .utf8 k (save .utf8 k fs t .hdf5 false o1).1 t2 .hdf5 false o2).1 t' ft =
-      load k' (save .utf8 k fs t .hdf5 false o1).1 t' ft := by
+    (hf : FS.lookup fs t = none) (o1 o2 d1 d2 : Val)
+    (hd1 : toDict k1 o1 = .ok d1) (hd2 : toDict k2 o2 = .ok d2)
+    (hst : storable .utf8 d1 = true) :
+    (save .utf8 k1 fs t .hdf5 false o1).2.1 = none ∧
+    (save .utf8 k2 (save .utf8 k1 fs t .hdf5 false o1).1 t2 .hdf5 false o2).2.1 = some .fileExists ∧
+    (save .utf8 k2 (save .utf8 k1 fs t .hdf5 false o1).1 t2 .hdf5 false o2).1 =
+      (save .utf8 k1 fs t .hdf5 false o1).1 ∧
+    ∀ k' t' ft, load k' (save .utf8 k2 (save .utf8 k1 fs t .hdf5 false o1).1 t2 .hdf5 false o2).1 t' ft =
+      load k' (save .utf8 k1 fs t .hdf5 false o1).1 t' ft := by
   obtain ⟨tree, _, e1, _, _⟩ := dict_roundtrip .utf8 _ hst
   have hw := writeDict_hdf5_fresh .utf8 fs t false _ tree (Or.inr hf) e1
-  have hfs : (save .utf8 k fs t .hdf5 false o1).1 = FS.put (cleared fs t false) t (.h5 tree) := by
+  have hfs : (save .utf8 k1 fs t .hdf5 false o1).1 = FS.put (cleared fs t false) t (.h5 tree) := by
     simp [save, hd1, hw]
-  have herr : (save .utf8 k fs t .hdf5 false o1).2.1 = none := by simp [save, hd1, hw]
-  have hl := hasLink_encode_head .utf8 k0 v1 r1 tree it1 hi1 hna1 e1
+  have herr : (save .utf8 k1 fs t .hdf5 false o1).2.1 = none := by simp [save, hd1, hw]
   have hlk2 : FS.lookup (FS.put (cleared fs t false) t (.h5 tree)) t2 = some (.h5 tree) := by
     rw [lookup_congr _ t2 t hid hp2]; exact lookup_put_self _ t _
   refine ⟨herr, ?_⟩
   rw [hfs]
-  cases hs : t2.asStr with
-  | true =>
-    obtain ⟨a, _, c⟩ := no_overwrite_guard .utf8 k (FS.put (cleared fs t false) t (.h5 tree)) t2 o2 _
-      (hp2.trans hp) hs hlk2
-    exact ⟨by simpa using c _ hd2, fun k' t' ft => by rw [a]⟩
-  | false =>
-    obtain ⟨a, _, c⟩ := no_overwrite_guard_pathlike k (FS.put (cleared fs t false) t (.h5 tree)) t2
-      (hp2.trans hp) hs tree hlk2 o2 k0 v2 r2 hd2 it2 hi2 hna2 hl
-    exact ⟨by simpa using a, c⟩
+  obtain ⟨a, _, c⟩ := no_overwrite_guard .utf8 k2 (FS.put (cleared fs t false) t (.h5 tree)) t2 o2 _
+    (hp2.trans hp) hlk2
+  exact ⟨c _ hd2, a, fun k' t' ft => by rw [a]⟩
 
 /-- a path that is no `str` is a path all the same for pickle (`open(…, 'wb')` truncates): fresh or
     existing, with or without the flag, the file afterwards holds exactly the new dictionary
@@ -639,16 +623,17 @@ def exStrT : Target := { isPath := true, id := 0, name := "x.h5" }
 example : exPathT.isPath = true ∧ exPathT.asStr = false ∧ exPathT.isStr = false ∧
     exPathT.id = exStrT.id ∧ exPathT.isPath = exStrT.isPath ∧ exStrT.isStr = true := by decide
 example : detectType .rdms exPathT none = .error .valueError := autodetect_str_only _ _ rfl
--- `existing_path_never_replaced`, instantiated: saved through the `str`, saved again through the Path
+-- `existing_path_never_replaced`, instantiated: an RDMs object saved through the `str`, then a
+-- *model* saved through the Path onto the same file (and the other way round): refused up front
 example : (save .utf8 .rdms [] exStrT .hdf5 false exRdms).2.1 = none ∧
-    (save .utf8 .rdms (save .utf8 .rdms [] exStrT .hdf5 false exRdms).1 exPathT .hdf5 false exRdms).2.1 =
-      some .nameExists ∧
+    (save .utf8 .model (save .utf8 .rdms [] exStrT .hdf5 false exRdms).1 exPathT .hdf5 false
+      (mkModel (.str "ModelFixed") (.str "m") exRdms)).2.1 = some .fileExists ∧
     (save .utf8 .rdms (save .utf8 .rdms [] exPathT .hdf5 false exRdms).1 exStrT .hdf5 false exRdms).2.1 =
       some .fileExists := by
-  have h := existing_path_never_replaced .rdms [] exStrT exPathT rfl rfl rfl rfl exRdms exRdms
-    "dissimilarities" _ _ _ _ rfl rfl (by decide +kernel) _ _ rfl rfl rfl rfl
-  have h' := existing_path_never_replaced .rdms [] exPathT exStrT rfl rfl rfl rfl exRdms exRdms
-    "dissimilarities" _ _ _ _ rfl rfl (by decide +kernel) _ _ rfl rfl rfl rfl
+  have h := existing_path_never_replaced .rdms .model [] exStrT exPathT rfl rfl rfl rfl exRdms
+    (mkModel (.str "ModelFixed") (.str "m") exRdms) _ _ rfl rfl (by decide +kernel)
+  have h' := existing_path_never_replaced .rdms .rdms [] exPathT exStrT rfl rfl rfl rfl exRdms exRdms
+    _ _ rfl rfl (by decide +kernel)
   exact ⟨h.1, h.2.1, h'.2.1⟩
 example : detectType .rdms { isPath := true, id := 0, name := "a.tar.hdf5" } none = .ok .hdf5 ∧
     detectType .dataset { isPath := true, id := 0, name := "x.h5.pkl" } none = .ok .pkl ∧
